@@ -99,9 +99,9 @@ def extAccepts (cs : ChainSt) (b : Batch) : Prop := extAcceptsWith solCmp cs b
 ledger and operation sequence, on every chain, a batch is stored on fxcore iff it was built there, the contract's last
 executed nonce OF ITS TOKEN is below its nonce, and its timeout has not passed.  So no batch is released (its
 transfers refundable) while the external chain can still pay it out, and no dead batch keeps transfers locked. -/
-theorem executable_batches_are_the_pending_ones (cfg : Cfg) (L : Ledger) (ops : List Op) (c : Nat) (b : Batch) :
-    extAccepts ((runOps cfg (init L) ops).chains c) b ↔ b ∈ ((runOps cfg (init L) ops).chains c).batches := by
-  have hinv := runOps_inv cfg ops (init L) (init_inv L) c
+theorem executable_batches_are_the_pending_ones (cfg : Cfg) (L : Ledger) (e0 : Nat → Nat → Nat) (ops : List Op) (c : Nat) (b : Batch) :
+    extAccepts ((runOps cfg (initE L e0) ops).chains c) b ↔ b ∈ ((runOps cfg (initE L e0) ops).chains c).batches := by
+  have hinv := runOps_inv cfg ops (initE L e0) (init_inv L e0) c
   have hc : solCmp = .lt := rfl
   simp only [extAccepts, extAcceptsWith, hc, Cmp.eval, decide_eq_true_eq]
   constructor
@@ -111,15 +111,15 @@ theorem executable_batches_are_the_pending_ones (cfg : Cfg) (L : Ledger) (ops : 
 /-- **every execution the external chain can perform is accounted**: in every reachable state, if the contract still
 accepts batch `b` of chain `c`, the observed `MsgSendToExternalClaim` for it is processed (no "unknown batch" panic),
 counts exactly the batch's value as withdrawn, and moves no balance. -/
-theorem executable_execution_is_accounted (cfg : Cfg) (L : Ledger) (ops : List Op) (c : Nat) (hc : c < nChains)
-    (b : Batch) (h : extAccepts ((runOps cfg (init L) ops).chains c) b) :
-    ∃ s', step cfg (runOps cfg (init L) ops) (.executed c b.g b.nonce) = .ok s' ∧
-      s'.L = (runOps cfg (init L) ops).L ∧
-      (∀ g, s'.withdrawn g = (runOps cfg (init L) ops).withdrawn g + poolValue g b.txs) ∧
-      (∀ g, s'.deposited g = (runOps cfg (init L) ops).deposited g) := by
-  have hmem := (executable_batches_are_the_pending_ones cfg L ops c b).mp h
-  have hinv := runOps_inv cfg ops (init L) (init_inv L) c
-  generalize runOps cfg (init L) ops = s at hmem hinv ⊢
+theorem executable_execution_is_accounted (cfg : Cfg) (L : Ledger) (e0 : Nat → Nat → Nat) (ops : List Op) (c : Nat) (hc : c < nChains)
+    (b : Batch) (h : extAccepts ((runOps cfg (initE L e0) ops).chains c) b) :
+    ∃ s', step cfg (runOps cfg (initE L e0) ops) (.executed c b.g b.nonce) = .ok s' ∧
+      s'.L = (runOps cfg (initE L e0) ops).L ∧
+      (∀ g, s'.withdrawn g = (runOps cfg (initE L e0) ops).withdrawn g + poolValue g b.txs) ∧
+      (∀ g, s'.deposited g = (runOps cfg (initE L e0) ops).deposited g) := by
+  have hmem := (executable_batches_are_the_pending_ones cfg L e0 ops c b).mp h
+  have hinv := runOps_inv cfg ops (initE L e0) (init_inv L e0) c
+  generalize runOps cfg (initE L e0) ops = s at hmem hinv ⊢
   have hf := filter_isBatch_unique _ b hmem hinv.nodup
   refine ⟨finish s c (executedWith cancelRule (s.chains c) b.g b.nonce) []
     (b.txs.map (fun t => (t.g, t.amount + t.fee))), ?_, rfl, ?_, fun _ => rfl⟩
@@ -145,16 +145,18 @@ theorem executed_without_token_filter_releases_executable_batch :
 
 /-! ### conservation -/
 
-/-- **conservation**: for every configuration, every initial ledger, every sequence of operations and every token
-group, in the reached state `held + inFlight = initial held + deposits − executed withdrawals`. -/
-theorem conservation (cfg : Cfg) (L : Ledger) (ops : List Op) (g : Nat) :
-    held (runOps cfg (init L) ops) g + (inFlight (runOps cfg (init L) ops) g : Int) =
-      held (init L) g + ((runOps cfg (init L) ops).deposited g : Int) - ((runOps cfg (init L) ops).withdrawn g : Int) := by
-  have h := runOps_measure cfg ops (init L) g
+/-- **conservation**: for every configuration (with or without the environment bound on deposits), every initial ledger,
+every amount circulating outside initially, every sequence of operations and every token group, in the reached state
+`held + inFlight = initial held + deposits − executed withdrawals`. -/
+theorem conservation (cfg : Cfg) (L : Ledger) (e0 : Nat → Nat → Nat) (ops : List Op) (g : Nat) :
+    held (runOps cfg (initE L e0) ops) g + (inFlight (runOps cfg (initE L e0) ops) g : Int) =
+      held (initE L e0) g + ((runOps cfg (initE L e0) ops).deposited g : Int)
+        - ((runOps cfg (initE L e0) ops).withdrawn g : Int) := by
+  have h := runOps_measure cfg ops (initE L e0) g
   simp only [FxVerif.Proofs.C04.measure, held] at h ⊢
-  have h0 : inFlight (init L) g = 0 := by simp [inFlight, init, chainInFlight, poolValue]
-  have h1 : (init L).deposited g = 0 := rfl
-  have h2 : (init L).withdrawn g = 0 := rfl
+  have h0 : inFlight (initE L e0) g = 0 := by simp [inFlight, initE, chainInFlight, poolValue]
+  have h1 : (initE L e0).deposited g = 0 := rfl
+  have h2 : (initE L e0).withdrawn g = 0 := rfl
   rw [h0, h1, h2] at h
   omega
 
